@@ -69,6 +69,10 @@ func gen(rng *rand.Rand, id int, quick bool) Script {
 			st.Kind = world.SeqTxs
 		}
 		st.NTx = 1 + rng.Intn(5)
+		if rng.Intn(40) == 0 {
+			// a large batch: around the round numbers a size- or count-limited copy would stop at
+			st.NTx = []int{100, 255, 256, 257, 300, 1000, 1025}[rng.Intn(7)]
+		}
 		switch rng.Intn(10) {
 		case 0:
 			st.TxGen = "random"
@@ -121,7 +125,11 @@ func mkTxs(rng *rand.Rand, st Step) [][]byte {
 				txs[i] = []byte{byte('a' + rng.Intn(3))}
 			}
 		case "big":
-			b := make([]byte, 64*1024)
+			if st.NTx > 8 && i > 2 {
+				txs[i] = []byte{byte(i), byte(i >> 8)}
+				continue
+			}
+			b := make([]byte, []int{64 * 1024, 256*1024 + 1, 1<<20 + 7}[(i+st.NTx)%3])
 			rng.Read(b)
 			txs[i] = b
 		default:
@@ -193,11 +201,11 @@ func RunScript(r *vk.Run, s Script) {
 		var ts time.Time
 		switch st.Ts {
 		case "inc":
-			ts = lastT.Add(time.Duration(1+txr.Intn(5)) * time.Second)
+			ts = lastT.Add(delta(txr))
 		case "eq":
 			ts = lastT
 		default:
-			ts = lastT.Add(-time.Duration(1+txr.Intn(5)) * time.Second)
+			ts = lastT.Add(-delta(txr))
 		}
 		resp := world.SeqResp{Kind: st.Kind, Time: ts}
 		if st.Kind == world.SeqTxs {
@@ -441,4 +449,16 @@ func Run(r *vk.Run) {
 	}
 	close(ch)
 	wg.Wait()
+}
+
+// delta draws a time step: whole seconds, or below a second down to one nanosecond (a comparison at a coarser
+// granularity than the header's nanoseconds would call such a step "equal").
+func delta(rng *rand.Rand) time.Duration {
+	switch rng.Intn(4) {
+	case 0:
+		return time.Duration(1+rng.Intn(999)) * time.Millisecond
+	case 1:
+		return []time.Duration{1, 999, time.Microsecond, 999_999_999}[rng.Intn(4)]
+	}
+	return time.Duration(1+rng.Intn(5)) * time.Second
 }
